@@ -67,8 +67,25 @@ thread_local! {
   static LAST_PANIC: RefCell<String> = RefCell::new(String::new());
 }
 
+/// name of the scenario this OS thread is exploring
+type Current = (String,);
+thread_local! {
+  static CURRENT: RefCell<Option<Current>> = RefCell::new(None);
+}
+
+fn class_of(sig: &str, msg: &str) -> (String, String) {
+  let short: String = msg.chars().take(200).collect();
+  if msg.contains("deadlock") {
+    (format!("deadlock:{sig}"), short)
+  } else {
+    let text: String = short.split(" @ ").next().unwrap_or("").chars().filter(|c| !c.is_ascii_digit()).take(50).collect();
+    (format!("panic:{sig}:{text}"), short)
+  }
+}
+
 pub fn install_panic_hook() {
   std::panic::set_hook(Box::new(|info| {
+
     let msg = if let Some(s) = info.payload().downcast_ref::<&str>() {
       s.to_string()
     } else if let Some(s) = info.payload().downcast_ref::<String>() {
@@ -76,7 +93,17 @@ pub fn install_panic_hook() {
     } else {
       "panic".to_string()
     };
+    if msg.contains("panic in a destructor during cleanup") || msg.contains("cannot unwind") {
+      // the process is going down: an engine failure, never a verdict
+      let first = LAST_PANIC.with(|p| p.borrow().clone());
+      let name = CURRENT.with(|c| c.borrow().as_ref().map(|c| c.0.clone())).unwrap_or_default();
+      eprintln!("MACHINERY: the runtime aborts while cleaning up in scenario `{name}` after: {first}");
+      return;
+    }
     let loc = info.location().map(|l| format!("{}:{}", l.file(), l.line())).unwrap_or_default();
+    if std::env::var_os("VERIF_PANIC_TRACE").is_some() {
+      eprintln!("panic: {msg} @ {loc}");
+    }
     LAST_PANIC.with(|p| {
       let mut p = p.borrow_mut();
       // keep the first (innermost) message of an execution
@@ -127,6 +154,7 @@ pub fn run_scenario(sc: &Scenario, replay: Option<Vec<u32>>, want_trace: bool) -
     let runner = Runner::new(sched, config());
     let (st2, res2, sc2) = (st.clone(), res.clone(), sc.clone());
     LAST_PANIC.with(|p| p.borrow_mut().clear());
+    CURRENT.with(|c| *c.borrow_mut() = Some((sc.name.clone(),)));
     let r = catch_unwind(AssertUnwindSafe(move || {
       runner.run(move || {
         LAST_PANIC.with(|p| p.borrow_mut().clear());
@@ -162,15 +190,15 @@ pub fn run_scenario(sc: &Scenario, replay: Option<Vec<u32>>, want_trace: bool) -
         rr.aborted += 1;
         if msg.contains("MACHINERY") {
           rr.machinery.push(format!("{}: {}", sc.name, msg));
-        } else if msg.contains("deadlock") {
-          let short: String = msg.chars().take(200).collect();
-          record(&mut rr, format!("deadlock:{}", sc.sig), sc, choices, short);
         } else {
-          let short: String = msg.chars().take(200).collect();
-          let text: String = short.split(" @ ").next().unwrap_or("").chars().filter(|c| !c.is_ascii_digit()).take(50).collect();
-          record(&mut rr, format!("panic:{}:{}", sc.sig, text), sc, choices, short);
+          let (class, short) = class_of(&sc.sig, &msg);
+          record(&mut rr, class, sc, choices, short);
         }
         drop(rr);
+        // pool task handles of the failed execution were never joined: they must
+        // not be dropped inside the next execution (their wakers name tasks of an
+        // execution that no longer exists), nor outside of one
+        crate::harness::forget_pool();
         if !after_abort(&st) {
           break;
         }
